@@ -223,7 +223,8 @@ def dirish(node):
     return False
 
 
-def select(rootdir, comps, dironly, sel, soft_dironly_links=False):
+def select(rootdir, comps, dironly, sel, soft_dironly_links=False,
+           root_entry=None):
     """Add to `sel` every lexical entry the pattern selects."""
 
     def take(lexrel, node, via_std):
@@ -235,19 +236,18 @@ def select(rootdir, comps, dironly, sel, soft_dironly_links=False):
             return
         sel.must.setdefault(lexrel, (node, via_std))
 
-    def walk(i, d, lexrel, via_std):
+    def walk(i, d, lexrel, via_std, entry):
+        """d: directory being listed; entry: node through which it was
+        reached (the dir itself or a standard symlink dir)."""
         c = comps[i]
         last = i == len(comps) - 1
         if c == '**':
             # zero directories
             if last:
-                if lexrel:
-                    # 'x/**' also names x itself in some shells: optional
-                    sel.optional.setdefault(lexrel, d)
-                else:
-                    sel.optional.setdefault((), d)
+                # 'x/**' also names x itself in some shells: optional
+                sel.optional.setdefault(lexrel, entry)
             else:
-                walk(i + 1, d, lexrel, via_std)
+                walk(i + 1, d, lexrel, via_std, entry)
             for name, child in d.children.items():
                 if name.startswith('.'):
                     continue
@@ -257,7 +257,7 @@ def select(rootdir, comps, dironly, sel, soft_dironly_links=False):
                     take(lx, child, via_std)
                 t = traversable(child)
                 if t is not None:
-                    walk(i, t, lx, vs)
+                    walk(i, t, lx, vs, child)
             return
         for name, child in d.children.items():
             if not comp_match(c, name):
@@ -269,9 +269,15 @@ def select(rootdir, comps, dironly, sel, soft_dironly_links=False):
                 t = traversable(child)
                 if t is not None:
                     walk(i + 1, t, lx,
-                         via_std or (child.kind == 'link' and child.std))
+                         via_std or (child.kind == 'link' and child.std),
+                         child)
+                elif (dirish(child)
+                      and all(x == '**' for x in comps[i + 1:])):
+                    # 'lnk/**' names the (non-standard) link itself in
+                    # implementations where ** matches zero directories
+                    sel.optional.setdefault(lx, child)
 
-    walk(0, rootdir, (), False)
+    walk(0, rootdir, (), False, root_entry or rootdir)
 
 
 def closure(node, out, kinds=None):
